@@ -46,6 +46,9 @@ PURE_CALLS = {
     "ord", "chr", "divmod", "pow",
 }
 # attributes holding user-supplied pure functions (assumption recorded in the evidence)
+IMMUTABLE_BUILTINS = {"builtin:float", "builtin:int", "builtin:str", "builtin:bool", "builtin:complex", "builtin:NoneType", "builtin:bytes"}
+# method names that exist only on immutable builtin values
+IMMUTABLE_METHODS = {"is_integer", "bit_length", "as_integer_ratio", "hex", "conjugate"}
 PURE_VALUE_CALLS = {"ideal_unitary", "_ideal_unitary"}
 PURE_MODULE_PREFIXES = ("numpy", "math", "itertools", "collections", "warnings", "os", "re", "functools", "copy")
 
@@ -937,7 +940,10 @@ class _FuncEval:
                 return EMPTY
             # unresolved method call on a tracked receiver
             g = recv
-            if mname not in PURE_VALUE_CALLS:
+            # methods of immutable builtin values (float.is_integer, str.startswith, ..) have no effect on the IR
+            rtypes = o.T.expr_types.get(id(e.func.value)) if isinstance(e.func, ast.Attribute) else None
+            builtin_recv = bool(rtypes) and all(t in IMMUTABLE_BUILTINS for t in rtypes)
+            if mname not in PURE_VALUE_CALLS and not builtin_recv and mname not in IMMUTABLE_METHODS:
                 o.unresolved.append((self.f, e, g))
             return UNKNOWN if any(a in ("INPUT", "UNKNOWN") or (isinstance(a, tuple) and a[0] == "P") for a in g) else frozenset({"FRESH"})
         if name in COPY_CALLS:
